@@ -25,6 +25,10 @@ MANIFEST = {
             "on every run. End-to-end theorem: every returned component equals the SAFE recursive model on the "
             "centre-sampled gradient within the truncation bound (2*eps*M*sum|a| under the tap-count condition that the "
             "harness evaluates on the implementation's own tap count); sign case and time-shift invariance proved. "
+            "mod_grad_axis at model level: scaling one axis' waveform scales that component by |c|, keeps the others and "
+            "the sample count. Histories on one Sequence object (fill the block cache by calculate_pns/get_block/"
+            "waveforms, then mod_grad_axis/flip_grad_axis/set_block/read/remove_duplicates, then predict again; both "
+            "cache settings) must give the SAFE model of the sequence as it is now. "
             "Random sequences (trapezoid/extended/arbitrary gradients, channel subsets, delays, chained "
             "non-zero block edges, rasters 10/20 us, several gamma, random hardware) run through calculate_pns and are "
             "compared with an independent exact-Fraction SAFE evaluation (recursive filter, per-event sampling at raster "
@@ -48,7 +52,7 @@ RULE = ('sequences of 1-4 blocks with, per channel, none / trapezoid / extended 
         'Fractions, recursive filter, gradient evaluated event by event at raster centres; components, norm, count and ok '
         'compared. Fixed extra streams: 8 multi-axis near-threshold cases on non-proton systems (every component < 1, norm in '
         '[0.9, 1.2]), 8 sequences written to a .seq file with a 20/5 us gradient raster and read into a default-raster '
-        'Sequence, scaled (|c|) and time-shifted re-runs of ~30% of the cases. distinct = distinct cases; non-trivial = at least one axis with peak stimulation > 1e-3')
+        'Sequence, 20 histories on one object (cache warm-up, API change, second prediction), scaled (|c|) and time-shifted re-runs of ~30% of the cases. distinct = distinct cases; non-trivial = at least one axis with peak stimulation > 1e-3')
 TRUSTED = ['binary64 arithmetic of NumPy/SciPy (PPoly evaluation, np.convolve, np.diff) is outside the model: sampled',
            'tap count n = min(round(log(eps)/log(1-alpha)), N) is computed by the harness with the same float formula '
            'and passed to the model; the oracle tolerance contains the exact truncation bound M(1-alpha)^n',
@@ -243,33 +247,44 @@ def make_hw(case, scale_tau=None):
     return hw
 
 
-def build_seq(case, gscale=None):
+def make_system(case):
     import pypulseq as pp
     r = case['raster_us']
-    system = pp.Opts(max_grad=1e12, grad_unit='Hz/m', max_slew=1e18, slew_unit='Hz/m/s', grad_raster_time=r / 1e6,
-                     block_duration_raster=r / 1e6, gamma=fl(case['gamma']))
+    return pp.Opts(max_grad=1e12, grad_unit='Hz/m', max_slew=1e18, slew_unit='Hz/m/s', grad_raster_time=r / 1e6,
+                   block_duration_raster=r / 1e6, gamma=fl(case['gamma']))
+
+
+def block_events(b, r, system, c=Fraction(1)):
+    import pypulseq as pp
+    evs = []
+    for ch in AX:
+        e = b['ev'].get(ch)
+        if e is None:
+            continue
+        if e['k'] == 'trap':
+            evs.append(pp.make_trapezoid(ch, amplitude=float(c * Fraction(e['amp'])), rise_time=tsec(e['rise'], r),
+                                         flat_time=tsec(e['flat'], r), fall_time=tsec(e['fall'], r),
+                                         delay=tsec(e['delay'], r), system=system))
+        elif e['k'] == 'ext':
+            evs.append(pp.make_extended_trapezoid(ch, amplitudes=np.array([float(c * Fraction(a)) for a in e['a']]),
+                                                  times=np.array([tsec(t, r) for t in e['t']]), system=system,
+                                                  skip_check=True))
+        else:
+            evs.append(pp.make_arbitrary_grad(ch, np.array([float(c * Fraction(w)) for w in e['w']]), first=0.0,
+                                              last=0.0, delay=tsec(e['delay'], r), system=system))
+    if b['delay']:
+        evs.append(pp.make_delay(tsec(b['delay'], r)))
+    return evs
+
+
+def build_seq(case, gscale=None, cache=True):
+    import pypulseq as pp
+    r = case['raster_us']
+    system = make_system(case)
     c = Fraction(1) if gscale is None else Fraction(gscale)
-    seq = pp.Sequence(system)
+    seq = pp.Sequence(system, use_block_cache=cache)
     for b in case['blocks']:
-        evs = []
-        for ch in AX:
-            e = b['ev'].get(ch)
-            if e is None:
-                continue
-            if e['k'] == 'trap':
-                evs.append(pp.make_trapezoid(ch, amplitude=float(c * Fraction(e['amp'])), rise_time=tsec(e['rise'], r),
-                                             flat_time=tsec(e['flat'], r), fall_time=tsec(e['fall'], r),
-                                             delay=tsec(e['delay'], r), system=system))
-            elif e['k'] == 'ext':
-                evs.append(pp.make_extended_trapezoid(ch, amplitudes=np.array([float(c * Fraction(a)) for a in e['a']]),
-                                                      times=np.array([tsec(t, r) for t in e['t']]), system=system,
-                                                      skip_check=True))
-            else:
-                evs.append(pp.make_arbitrary_grad(ch, np.array([float(c * Fraction(w)) for w in e['w']]), first=0.0,
-                                                  last=0.0, delay=tsec(e['delay'], r), system=system))
-        if b['delay']:
-            evs.append(pp.make_delay(tsec(b['delay'], r)))
-        seq.add_block(*evs)
+        seq.add_block(*block_events(b, r, system, c))
     return seq
 
 
@@ -953,6 +968,183 @@ def gen_near(rng, i):
     return None
 
 
+# ------------------------------------------------------------------------------------------------
+# histories on ONE Sequence object: fill the cache, change the sequence through the public API, predict again.
+# The prediction must be the SAFE model of the sequence AS IT IS NOW, for both block-cache settings.
+class _Tagged:
+    """ctx proxy that tags oracle failure signatures of the history stream"""
+
+    def __init__(self, ctx, tag):
+        self._ctx, self._tag = ctx, tag
+
+    def __getattr__(self, k):
+        return getattr(self._ctx, k)
+
+    def fail(self, sig, case, detail):
+        self._ctx.fail(sig + self._tag, case, detail)
+
+
+def no_chain(case):
+    for b in case['blocks']:
+        for e in b['ev'].values():
+            if e['k'] == 'ext' and (Fraction(e['a'][0]) != 0 or Fraction(e['a'][-1]) != 0):
+                return False
+    return True
+
+
+def scale_channel(case, ch, c):
+    """exact design after mod_grad_axis(ch, c)"""
+    out = dict(case)
+    out['blocks'] = []
+    for b in case['blocks']:
+        ev = dict(b['ev'])
+        if ch in ev:
+            ev[ch] = scale_blocks([{'delay': 0, 'ev': {ch: ev[ch]}}], c)[0]['ev'][ch]
+        out['blocks'].append({'delay': b['delay'], 'ev': ev})
+    return out
+
+
+def gen_plain(rng, tag, with_file_arbs=False):
+    for _ in range(50):
+        c = gen_case(rng, True, tag)
+        if no_chain(c):
+            break
+    if with_file_arbs:
+        for b in c['blocks']:
+            for e in b['ev'].values():
+                if e['k'] == 'arb':
+                    e['w'] = list(e['w']) + ['0', '0']
+    return c
+
+
+def gen_block_with_gradient(rng):
+    while True:
+        for b in gen_plain(rng, 'hist')['blocks']:
+            if b['ev']:
+                return b
+
+
+HIST_OPS = ['mod_all', 'mod_one', 'flip', 'set_block', 'read', 'dedup', 'mod_one', 'mod_all', 'flip+set', 'mod_z']
+HIST_WARM = ['pns', 'get_block', 'waveforms', 'pns', 'none']
+
+
+def gen_history(rng, i):
+    base = gen_plain(rng, 'hist')
+    if i % 3 == 0:
+        # a block whose only gradient sits on z (e.g. a spoiler), besides blocks using several axes
+        base['blocks'].append({'delay': 0, 'ev': {'z': gen_event(rng, 1)}})
+        while base['blocks'][-1]['ev']['z']['k'] == 'ext':
+            base['blocks'][-1]['ev']['z'] = gen_event(rng, 1)
+    kind = HIST_OPS[i % len(HIST_OPS)]
+    ops = []
+    fac = rng.choice(['-1', '2', '0.5', '-0.25', '3', '-2'])
+    for k in kind.split('+'):
+        if k == 'mod_all':
+            ops += [['mod', ax, fac] for ax in AX]
+        elif k == 'mod_one':
+            chs = sorted({ch for b in base['blocks'] for ch in b['ev']})
+            ops.append(['mod', rng.choice(chs), fac])
+        elif k == 'mod_z':
+            ops.append(['mod', 'z', fac])
+        elif k == 'flip':
+            chs = sorted({ch for b in base['blocks'] for ch in b['ev']})
+            ops.append(['flip', rng.choice(chs)])
+        elif k == 'set_block':
+            nb = gen_block_with_gradient(rng)
+            ops.append(['set', rng.randint(1, len(base['blocks'])), nb])
+        elif k == 'set':
+            nb = gen_block_with_gradient(rng)
+            ops.append(['set', rng.randint(1, len(base['blocks'])), nb])
+        elif k == 'read':
+            other = gen_plain(rng, 'hist', with_file_arbs=True)
+            other['raster_us'] = rng.choice([10, 20, 5])
+            ops.append(['read', other])
+        elif k == 'dedup':
+            ops.append(['dedup'])
+    warm = 'none' if i % 7 == 6 else rng.choice(HIST_WARM[:4])
+    return {'base': base, 'ops': ops, 'warm': warm, 'cache': rng.random() < 0.8}
+
+
+def run_history(ctx, h):
+    import os
+    import tempfile
+    base, ops, warm, cache = h['base'], h['ops'], h['warm'], h['cache']
+    tctx = _Tagged(ctx, '@history')
+    seq = build_seq(base, cache=cache)
+    hw = make_hw(base)
+    design = dict(base)
+    exact_before = None
+    ctx.count('hist.warm.' + warm)
+    ctx.count('hist.cache.%s' % cache)
+    try:
+        if warm == 'pns':
+            ok, norm, comp, t = seq.calculate_pns(hw, do_plots=False)
+            d0 = dict(design, stream='hist', history=h, stage='before')
+            passed, info = oracle(tctx, d0, bool(ok), np.asarray(norm, float), np.asarray(comp, float), np.asarray(t, float))
+            if not passed:
+                return
+            exact_before = info['exact']
+        elif warm == 'get_block':
+            for k in list(seq.block_events):
+                seq.get_block(k)
+        elif warm == 'waveforms':
+            seq.waveforms()
+        uniform = None          # all three axes scaled by the same factor: |c| * (prediction before) is expected
+        loose = False
+        mods = {}
+        for op in ops:
+            ctx.count('hist.op.' + op[0])
+            if op[0] in ('mod', 'flip'):
+                c = Fraction(op[2]) if op[0] == 'mod' else Fraction(-1)
+                try:
+                    if op[0] == 'mod':
+                        seq.mod_grad_axis(op[1], float(c))
+                    else:
+                        seq.flip_grad_axis(op[1])
+                except RuntimeError as e:
+                    if 'multiple axes' in str(e):
+                        ctx.count('hist.mod_refused_shared_event')     # documented refusal: sequence unchanged
+                        continue
+                    raise
+                design = scale_channel(design, op[1], c)
+                mods[op[1]] = mods.get(op[1], Fraction(1)) * c
+            elif op[0] == 'set':
+                design = dict(design)
+                design['blocks'] = list(design['blocks'])
+                design['blocks'][op[1] - 1] = op[2]
+                seq.set_block(op[1], *block_events(op[2], design['raster_us'], seq.system))
+                mods = None
+            elif op[0] == 'read':
+                other = dict(op[1], gamma=design['gamma'], hw=design['hw'])
+                with tempfile.TemporaryDirectory(prefix='pvC20h') as d:
+                    fn = os.path.join(d, 'b.seq')
+                    build_seq(other).write(fn, create_signature=False)
+                    seq.read(fn)
+                design = other
+                loose, mods = True, None
+            elif op[0] == 'dedup':
+                seq.remove_duplicates(in_place=True)
+                loose = True
+        ok, norm, comp, t = seq.calculate_pns(hw, do_plots=False)
+    except Exception as e:  # noqa: BLE001
+        ctx.fail('C20/raises@history', dict(design, stream='hist', history=h), {'exception': repr(e)})
+        ctx.evaluated(None, nontrivial=False)
+        return
+    now = dict(design, stream='hist', history=h, stage='after')
+    if loose:
+        now['via_file'] = True
+    expect = None
+    if mods and exact_before is not None and len(set(mods.get(ax, Fraction(1)) for ax in AX)) == 1:
+        # homogeneity theorem (C20_pns_homogeneous): the exact expectation is |c| times the prediction before
+        ac = abs(mods.get('x', Fraction(1)))
+        expect = {ax: [ac * v for v in exact_before[ax]] for ax in AX}
+        ctx.count('hist.homogeneity_expectation')
+    passed, info = oracle(tctx, now, bool(ok), np.asarray(norm, float), np.asarray(comp, float), np.asarray(t, float),
+                          expect=expect)
+    ctx.evaluated(('h', repr(h)), nontrivial=bool(passed and max(info['peak'].values()) > Fraction(1, 1000)))
+    ctx.count('stream.hist')
+
+
 def file_case(rng, i):
     c = gen_case(rng, True, 'file')
     c['raster_us'] = [20, 5][i % 2]
@@ -996,6 +1188,10 @@ def run(ctx):
     for i in range({'quick': 8, 'thorough': 200}[ctx.tier]):
         c = file_case(rng_f, i)
         one_case(ctx, c, False, 1)
+    # histories on one Sequence object (cache filled, sequence changed through the API, predicted again)
+    rng_hist = ctx.rng('history')
+    for i in range({'quick': 20, 'thorough': 400}[ctx.tier]):
+        run_history(ctx, gen_history(rng_hist, i))
     rng_s, rng_b = ctx.rng('small'), ctx.rng('big')
     n_small = {'quick': 15, 'thorough': 500}[ctx.tier]
     n_big = {'quick': 60, 'thorough': 2500}[ctx.tier]
@@ -1021,6 +1217,10 @@ def replay(ctx, case):
         return {'stream': case['stream']}
     if case.get('stream') in ('filter', 'threshold'):
         return {'note': 'stream case; re-run ./check C20'}
+    if case.get('stream') == 'hist':
+        run_history(ctx, case['history'])
+        return {'stream': 'hist', 'ops': [o[0] for o in case['history']['ops']], 'warm': case['history']['warm'],
+                'cache': case['history']['cache']}
     base = dict(case)
     if '*' in str(case.get('stream', '')):
         return {'note': 'scaled-run case; replay the unscaled case'}
